@@ -40,7 +40,12 @@ RULE = ('Fold-balanced datasets: K conditions x M folds x R repetitions x P chan
         'precision objects: every result judged against the definition on the original data and pristine '
         'precisions; the Dataset (measurements, all descriptors, no new keys) and the precision objects '
         'must be bit-identical after every call (the latter also after every single call of the other '
-        'families). Scale family: data x 1e-5 / 1e4, precisions x 1e-8 / 1e6, int64 and bool measurements.')
+        'families). Naming family: every fold naming {0..M-1, unsorted ints, six-digit ints, negative ints, '
+        'strings, strings that are prefixes of each other, small / negative floats, floats large relative '
+        'to their spacing (1.7e9 + 3600 k, 20240101.0 + k, 100001.0 + k), tiny floats 1e-9 k} and the '
+        'default folds x every condition naming of the same kinds, for every estimator and precision '
+        'mode: equal to the definition and to the result with folds named 0..M-1 / conditions named by '
+        'the plain ints. Scale family: data x 1e-5 / 1e4, precisions x 1e-8 / 1e6, int64 and bool measurements.')
 ASSUMPTIONS = [
     'reference in mc/ref/c02_ref.py is the definition (double loop over ordered pairs of distinct folds of fold-wise condition means)',
     'one precision per fold is passed as a list / 3-D array whose i-th entry belongs to the i-th fold in sorted order of the fold labels (numeric for numbers, lexicographic for strings); for the default fold descriptor the k-th entry belongs to fold k = k-th occurrence',
@@ -71,6 +76,23 @@ COND_LABELS = {'int': [12, 3, 7, 5], 'str': ['cz', 'ca', 'b10', 'B2'], 'char': [
 _FOLD_INT = [7, 3, 12, 5, 20, 1, 9, 15, 2, 30, 11, 4, 8, 6]
 _FOLD_STR = ['r2', 'r10', 'ra', 'Rb']
 ALPHABETS = {'012': (0, 1, 2), 'm1012': (-1, 0, 1, 2), '01': (0, 1)}
+# naming family: label alphabets for folds and conditions (4 labels each, first-appearance != sorted)
+NAMES = {
+    'range': [0, 1, 2, 3],
+    'int6': [100003, 100001, 100004, 100002],
+    'neg': [-3, 2, -7, -1],
+    'strprefix': ['r1', 'r', 'r10', 'r1a'],                          # prefixes of each other
+    'fsmall': [0.5, 0.25, 1.5, 0.75],
+    'fneg': [-1.5, 2.0, -0.25, -3.0],
+    'funix': [1717750800.0 + 3600.0 * k for k in (2, 0, 3, 1)],      # large relative to their spacing
+    'fdate': [20240101.0 + k for k in (1, 0, 3, 2)],
+    'f1e5': [100001.0 + k for k in (3, 1, 0, 2)],
+    'ftiny': [1e-9 * k for k in (2, 0, 3, 1)],
+}
+FOLD_NAMINGS = ['range', 'int', 'int6', 'neg', 'str', 'strprefix', 'fsmall', 'fneg', 'funix', 'fdate', 'f1e5', 'ftiny']
+COND_NAMINGS = ['int', 'str', 'int6', 'neg', 'strprefix', 'fsmall', 'funix', 'fdate', 'ftiny']
+COND_LABELS.update({k: v for k, v in NAMES.items() if k != 'range'})
+_AS_LIST = ('range', 'neg', 'f1e5', 'fneg', 'fdate')     # passed as python list, the others as ndarray
 # sequence family: S stimuli in C categories (stimulus s belongs to category s mod C), M explicit folds
 SEQ_DESIGNS = [(4, 2, 2), (4, 2, 3), (6, 3, 2)]
 STIM_LABELS = [12, 3, 7, 5, 9, 1]
@@ -87,6 +109,8 @@ SEQ_CALLS = [['crossnobis', d, cv, nz, e] for d in ('stim', 'cat') for cv in ('d
 def _fold_labels(kind, n_fold):
     if kind == 'int':
         return _FOLD_INT[:n_fold]
+    if kind in NAMES:
+        return NAMES[kind][:n_fold]
     if n_fold <= 4:
         return _FOLD_STR[:n_fold]
     return ['r%d' % i for i in range(n_fold)]      # 'r10' sorts before 'r2'
@@ -198,6 +222,10 @@ def shards(tier, seed):
     for K, M, R in ([(2, 2, 1), (3, 3, 2), (2, 3, 2), (3, 2, 1), (4, 4, 1)] if thorough else [(2, 2, 1), (3, 3, 2), (2, 3, 2)]):
         for P in (2, 3):
             out.append({'b': 'scale', 'K': K, 'M': M, 'R': R, 'P': P})
+    for K, M, R in ([(2, 2, 1), (3, 3, 1), (2, 3, 2), (2, 4, 1), (4, 2, 2)] if thorough else [(2, 2, 1), (3, 3, 1), (2, 3, 2)]):
+        for P in ((1, 2, 3) if thorough else (2,)):
+            for ci in range(ncfg):
+                out.append({'b': 'naming', 'K': K, 'M': M, 'R': R, 'P': P, 'cfgs': [ci]})
     for S, C, M in SEQ_DESIGNS:
         for P in ((1, 2) if thorough else (2,)):
             step = 1 if thorough else 5
@@ -355,6 +383,20 @@ def run_shard(shard, ctx):
                     if cfg[1] == 'perfold':
                         case['nform'] = ('list', 'array')[oi % 2]
                     run_case(case, ctx)
+    elif b == 'naming':
+        K, M, R, P = shard['K'], shard['M'], shard['R'], shard['P']
+        so = _structured_orders(K, M, R)
+        for ci in shard['cfgs']:
+            cfg = CFGS[ci]
+            for ni, clab in enumerate(COND_NAMINGS):
+                for fi, flab in enumerate(FOLD_NAMINGS + ['default']):
+                    kw = dict(cv='default' if flab == 'default' else 'explicit', clab=clab,
+                              flab='range' if flab == 'default' else flab, order=so[(3, 1)[(ni + fi) % 2]],
+                              entry=('calc_rdm', 'direct')[(ni + fi + ci) % 2],
+                              values={'v': ('fill', 'int')[(ni + ci) % 2], 'k': 3}, fam='naming')
+                    if cfg[1] == 'perfold':
+                        kw['nform'] = ('list', 'array')[ni % 2]
+                    run_case(_base_case(K, M, R, P, cfg, **kw), ctx)
     elif b == 'scale':
         K, M, R, P = shard['K'], shard['M'], shard['R'], shard['P']
         so = _structured_orders(K, M, R)
@@ -487,9 +529,9 @@ def _library(case, inp, ctx, sigp, rows=None):
     meas = np.array(rows, dtype={'int': np.int64, 'bool': bool}.get(case.get('dtype'), float))
     cond = inp['cond']
     obs = {'trial': list(range(len(rows)))}
-    obs['cond'] = np.array(cond) if case['clab'] == 'int' else list(cond)
+    obs['cond'] = list(cond) if case['clab'] in ('str', 'char') + _AS_LIST else np.array(cond)
     if inp['fold'] is not None:
-        obs['fold'] = list(inp['fold']) if case['flab'] == 'int' else np.array(inp['fold'])
+        obs['fold'] = list(inp['fold']) if case['flab'] in ('int',) + _AS_LIST else np.array(inp['fold'])
     ds = Dataset(measurements=meas, obs_descriptors=obs)
     cvd = 'fold' if inp['fold'] is not None else None
     noise = inp['prec_lib']
@@ -551,9 +593,20 @@ def _by_index(res, inp):
 _CACHE = {}
 
 
+def _label_type(kind):
+    v = COND_LABELS[kind][0] if kind in COND_LABELS else _fold_labels(kind, 1)[0]
+    return 'float' if isinstance(v, float) else ('str' if isinstance(v, str) else 'int')
+
+
 def _parent(case):
     """the variant one step closer to the canonical presentation, and what differs"""
     P, M = case['P'], case['M']
+    if case.get('fam') == 'naming':
+        if case['cv'] == 'explicit' and case['flab'] != 'range':
+            return dict(case, flab='range'), 'fold-naming-variant(%s)' % _label_type(case['flab'])
+        if case['clab'] != 'int':
+            return dict(case, clab='int'), 'condition-naming-variant(%s)' % _label_type(case['clab'])
+        return None, None
     if list(case['chperm']) != list(range(P)):
         return dict(case, chperm=list(range(P))), 'channel-perm-variant'
     if case['cv'] == 'explicit':
